@@ -1,4 +1,5 @@
 """C02 — application messages on the winning branch arrive exactly once, intact and valid (structural clauses)."""
+import re
 from ir import last_seg
 import analysis as A
 import common as K
@@ -66,6 +67,32 @@ def clause_store_both(prog, rep, scope):
                   "stored Message.epoch is produced by %s: a late message from an older epoch is filed under the receiver's epoch and "
                   "is invalidated by a rollback although valid on every branch" % (names or "nothing traceable"),
                   "%s:%s" % (f.file, s.get("line")))
+
+
+REWRITABLE = {"Message": {"state"}, "ProcessedMessage": {"state", "failure_reason", "processed_at"}}
+
+
+def clause_record_fields_rewritten(prog, rep, scope):
+    """stored message records are updated in place only in their state (and the failure bookkeeping of the processed record): the epoch
+    label, ids, author, content ... of an existing record are never reassigned (e.g. re-stamping an own message with the epoch in which
+    its echo arrives files it under a later epoch, and a rollback then invalidates a message created before the fork)"""
+    n = 0
+    for p in sorted(scope):
+        f = prog.fns[p]
+        for bb, st in f.stmts():
+            d = st["d"]
+            if len(d) < 2 or not isinstance(d[-1], str) or not d[-1].startswith("."):
+                continue
+            ty = f.locals[d[0]]
+            for adt, ok_fields in REWRITABLE.items():
+                if re.search(r"mdk_storage_traits::messages::types::%s(?![A-Za-z])" % adt, ty) and "Result<" not in ty and "Option<" not in ty:
+                    n += 1
+                    fld = d[-1][1:]
+                    rep.check(fld in ok_fields, "message-epoch-provenance", "%s/%s.%s-rewritten" % (prog.fns.get(f.root, f).label(), adt, fld),
+                              "in-place update of a stored %s touches only %s" % (adt, sorted(ok_fields)),
+                              "the `%s` of an already stored %s is reassigned in place: the record no longer says what was recorded when the "
+                              "message was created / received" % (fld, adt), "%s:%s" % (f.file, st.get("line")))
+    rep.floor("message-epoch-provenance", "in-place field updates of stored message records on the receive path", n, 4)
 
 
 def clause_echo_table(prog, rep, scope):
@@ -300,6 +327,7 @@ def run(ctx, rep):
     rep.not_decided = "exactly-once under real interleavings, window arithmetic inside OpenMLS, relay echo timing"
     clause_store_both(prog, rep, scope)
     clause_echo_table(prog, rep, scope)
+    clause_record_fields_rewritten(prog, rep, scope)
     clause_lookback(prog, rep, scope)
     clause_dedup_transient(prog, rep, roots)
     # losing-branch messages: what the rollback arm invalidates is decided by the storage queries (both backends)
